@@ -24,6 +24,7 @@ import ModVerif.Proofs.EditPanicRun
 import ModVerif.Proofs.EditReparseF
 import ModVerif.Proofs.EditGoodBlocksC
 import ModVerif.Proofs.EditWorkReparseD
+import ModVerif.Proofs.EditStartFixRun
 namespace ModVerif.Props.C15
 open ModVerif ModVerif.EditSpec ModVerif.Modfile
 
@@ -1070,5 +1071,110 @@ example : Edit.W.IOK [(1, Edit.W.Item.use (B "./a"))] ∧ Edit.W.FI [(1, Edit.W.
     exact Edit.W.itemOKB_sound (by decide +kernel)
   · intro a b p q h; simp at h
   · intro a b p q h; simp at h
+
+/-! ### The start state of a file parsed WITH a version fixer (`typed_eq_tree` (b)) -/
+
+/-- **the universal start-state lemma with a version fixer (go.mod).**  Every file accepted by the strict parser WITH a
+    `VersionFixer` `fx` (so `fixRetract` has run: every retract interval re-parsed with `fx`, its line rewritten by
+    `FileSyntax.updateLine`), with non-empty keys and `NoBlockSuffix`, satisfies the tree invariant after `load`, and
+    `StartOK` — under `Edit.SFix.FixerOK fx`: **`fx` never returns the empty version**.  Nothing else is asked of the fixer
+    (no idempotence, no canonical output): `parseVersion` writes the RAW fixed version into the token and returns the same
+    bytes, which is how `Edit.entries` reads require / exclude / replace / retract lines.  The hypothesis is needed: an
+    empty fixed version is written as an empty token, which the replace rendering (`replaceToks`: version omitted when
+    empty) does not have (example below). -/
+theorem parseStrict_inv_fix (name data : Bytes) (fx : Fixer) (f : File) (h : parseStrict name data (some fx) = .ok f)
+    (hfx : Edit.SFix.FixerOK fx) (hk : Edit.WellFormedKeys f) (hs : Edit.NoBlockSuffix f.syn) :
+    Edit.Inv (Edit.load f) ∧ Edit.StartOK f :=
+  ⟨Edit.SFix.parseStrict_inv_fix (Edit.SFix.fixOK_some hfx) h hk hs,
+   Edit.SFix.parseStrict_startOK_fix (Edit.SFix.fixOK_some hfx) h hk⟩
+
+/-- … and go.work (`parseWork` with a fixer; there is no `fixRetract`, the fixer only reaches the versions of `replace`) -/
+theorem parseWork_inv_fix (name data : Bytes) (fx : Fixer) (f : WorkFile) (h : parseWork name data (some fx) = .ok f)
+    (hfx : Edit.SFix.FixerOK fx) (hk : Edit.WorkKeys f) (hs : Edit.NoBlockSuffix f.syn) :
+    Edit.InvW (Edit.loadWork f) ∧ Edit.WorkStartOK f :=
+  ⟨Edit.SFix.parseWork_invW_fix (Edit.SFix.fixOK_some hfx) h hk hs,
+   Edit.SFix.parseWork_startOK_fix (Edit.SFix.fixOK_some hfx) h hk⟩
+
+/-- **`nilDeref_unreachable` for sessions that start from a file parsed WITH a version fixer** (the statement of
+    `nilDeref_unreachable`, start lemma swapped) -/
+theorem nilDeref_unreachable_fix (name data : Bytes) (fx : Fixer) (f : File) (ops : List Edit.Op)
+    (hf : parseStrict name data (some fx) = .ok f) (hfx : Edit.SFix.FixerOK fx)
+    (hk : Edit.WellFormedKeys f) (hs : Edit.NoBlockSuffix f.syn)
+    (hv : Edit.StaticValid false ops) (hmod : ∀ op ∈ ops, Edit.IsModOp op) :
+    ∃ e' res, Edit.runOps Edit.applyMod (Edit.load f) ops [] 0 = .done e' res ∧
+      (∀ (pre : List Edit.Op) (op : Edit.Op) (post : List Edit.Op), ops = pre ++ op :: post →
+        ∃ e1 r1, Edit.runOps Edit.applyMod (Edit.load f) pre [] 0 = .done e1 r1 ∧
+          Edit.applyMod e1 op ≠ some (.error .nilDeref) ∧ Edit.applyMod e1 op ≠ some (.error .badStatement) ∧
+          Edit.applyMod e1 op ≠ some (.error .conflictingVersions)) ∧
+      Edit.P.Inv (Edit.cleanup e') :=
+  Edit.SFix.nilDeref_unreachable_fix (Edit.SFix.fixOK_some hfx) name data f ops hf hk hs hv hmod
+
+/-- … and go.work -/
+theorem nilDeref_unreachable_work_fix (name data : Bytes) (fx : Fixer) (f : WorkFile) (ops : List Edit.Op)
+    (hf : parseWork name data (some fx) = .ok f) (hfx : Edit.SFix.FixerOK fx)
+    (hk : Edit.WorkKeys f) (hs : Edit.NoBlockSuffix f.syn)
+    (hv : Edit.StaticValidW false ops) (hw : ∀ op ∈ ops, Edit.IsWorkOp op) :
+    ∃ e' res, Edit.runOps Edit.applyWork (Edit.loadWork f) ops [] 0 = .done e' res ∧
+      (∀ (pre : List Edit.Op) (op : Edit.Op) (post : List Edit.Op), ops = pre ++ op :: post →
+        ∃ e1 r1, Edit.runOps Edit.applyWork (Edit.loadWork f) pre [] 0 = .done e1 r1 ∧
+          Edit.applyWork e1 op ≠ some (.error .nilDeref) ∧ Edit.applyWork e1 op ≠ some (.error .badStatement) ∧
+          Edit.applyWork e1 op ≠ some (.error .conflictingVersions)) ∧
+      Edit.InvW (Edit.workCleanup e') :=
+  Edit.SFix.nilDeref_unreachable_work_fix (Edit.SFix.fixOK_some hfx) name data f ops hf hk hs hv hw
+
+/-- non-vacuity of `FixerOK`: `Edit.SFix.guardFixer fx` is `fx` with an empty answer turned into an error (equal to `fx`
+    when `fx` never answers empty: `Edit.SFix.guardFixer_eq`) -/
+example : Edit.SFix.FixerOK (Edit.SFix.guardFixer Modfile.fixStub) := Edit.SFix.fixerOK_guard _
+
+/-- non-vacuity of `parseStrict_inv_fix` / `nilDeref_unreachable_fix`: a go.mod with symbolic versions (`latest`,
+    `master`, the short `v1`, `v1.1`) in require / replace / retract (a retract block with an interval, and a single
+    retract line) is accepted with the fixer; `fixRetract` has rewritten the retract lines (`[v1.1.0, v1.0.0]`,
+    `v1.0.0`); the start conditions hold, the invariant holds after `load` (`invB`), and a statically valid session that
+    drops and re-adds a rewritten retraction runs to completion -/
+example :
+    (match parseStrict (B "go.mod") (B "module m\n\ngo 1.21\n\nrequire a.b/c latest\nreplace a.b/c v1 => d.e/f master\nretract (\n\t[v1.1, latest] // bad\n\tv0.9\n)\nretract latest\n")
+        (some (Edit.SFix.guardFixer Modfile.fixStub)) with
+     | .ok f =>
+       Edit.startOKb f && f.syn.stmts.all (fun x => match x with
+         | .lineBlock b => b.comments.suffix.isEmpty
+         | _ => true) &&
+       f.require.map (·.mod.version) == [B "v1.0.0"] &&
+       f.retract.map (fun r => (r.interval.low, r.interval.high)) ==
+         [(B "v1.1.0", B "v1.0.0"), (B "v0.9.0", B "v0.9.0"), (B "v1.0.0", B "v1.0.0")] &&
+       Edit.invB (Edit.load f) &&
+       (let ops : List Edit.Op := [.dropRetract (B "v1.1.0") (B "v1.0.0"), .addRetract (B "v1.1.0") (B "v1.0.0") [],
+          .addRequire (B "a.b/e") (B "v1.0.0"), .cleanup]
+        Edit.staticValidB false ops &&
+        (match Edit.runOps Edit.applyMod (Edit.load f) ops [] 0 with
+         | .done e res => res.all id && Edit.invB (Edit.cleanup e)
+         | _ => false))
+     | .error _ => false) = true := by decide +kernel
+
+/-- why `FixerOK` is needed: with a fixer that answers the empty version, `replace a.b/c => d.e/f v1.0.0` is accepted, the
+    typed entry has `New.Version = ""` and the line holds FIVE tokens, the last one empty — the rendering of that entry
+    (`replaceToks`) has four, so the line is not the reading of its entry (`Edit.Inv` fails at the start; `invB` false) -/
+example :
+    (match parseStrict (B "go.mod") (B "module m\nreplace a.b/c => d.e/f v1.0.0\n") (some (fun _ _ => .ok [])) with
+     | .ok f =>
+       Edit.startOKb f &&
+       f.replace.map (fun r => (r.new.version, Edit.replaceToks r)) == [([], [B "replace", B "a.b/c", B "=>", B "d.e/f"])] &&
+       f.syn.allLines.map (·.token) == [[B "module", B "m"], [B "replace", B "a.b/c", B "=>", B "d.e/f", []]] &&
+       !Edit.invB (Edit.load f)
+     | .error _ => false) = true := by decide +kernel
+
+/-- non-vacuity of `parseWork_inv_fix` / `nilDeref_unreachable_work_fix` -/
+example :
+    (match parseWork (B "go.work") (B "go 1.21\n\nuse ./a\nreplace a.b/c v1 => d.e/f latest\n") (some (Edit.SFix.guardFixer Modfile.fixStub)) with
+     | .ok f =>
+       Edit.workStartOKb f && f.syn.stmts.all (fun x => match x with
+         | .lineBlock b => b.comments.suffix.isEmpty
+         | _ => true) &&
+       f.replace.map (fun r => (r.old.version, r.new.version)) == [(B "v1.0.0", B "v1.0.0")] &&
+       (let ops : List Edit.Op := [.addUse (B "./d") [], .dropUse (B "./a"), .cleanup]
+        Edit.staticValidWB false ops && ops.all Edit.isWorkOpB &&
+        (match Edit.runOps Edit.applyWork (Edit.loadWork f) ops [] 0 with
+         | .done _ res => res.all id
+         | _ => false))
+     | .error _ => false) = true := by decide +kernel
 
 end ModVerif.Props.C15
